@@ -738,6 +738,17 @@ def apply_fn_aliases(j):
         if len(cands) == 1 and not rivals:
             amap[cands[0]] = p
             taken.add(cands[0])
+            continue
+        if cands:
+            continue
+        # moved to another module (same name, same signature), unambiguously
+        name = p.rsplit('::', 1)[1]
+        moved = [q for q, fn in present.items() if q not in tab and q not in taken and fn.get('vis') != 'pub' and '{' not in q and
+                 q.rsplit('::', 1)[1] == name and fn.get('inputs', []) == want['inputs'] and fn.get('output', '') == want['output']]
+        same_name_missing = [m for m in missing if m != p and m.rsplit('::', 1)[1] == name and tab[m] == want]
+        if len(moved) == 1 and not same_name_missing:
+            amap[moved[0]] = p
+            taken.add(moved[0])
     if not amap:
         return {}
 
@@ -794,10 +805,64 @@ def apply_fn_aliases(j):
     return amap
 
 
+_ADT_TABLE = None
+
+
+def _adt_table():
+    global _ADT_TABLE
+    if _ADT_TABLE is None:
+        p = os.path.join(os.path.dirname(os.path.abspath(__file__)), 'tables', 'private_adts.json')
+        try:
+            with open(p) as f:
+                _ADT_TABLE = json.load(f)
+        except OSError:
+            _ADT_TABLE = {}
+    return _ADT_TABLE
+
+
+def type_aliases(j):
+    """Renamed private types (see tools/mkadttable.py): a reviewed non-public ADT that is absent, while the same module
+    now holds exactly one non-public ADT that the table does not know, of the same kind and with the same variants /
+    field types (its own name aside).  Returns {actual path: reviewed path}."""
+    tab = _adt_table().get(j.get('crate'), {})
+    if not tab:
+        return {}
+    present = {a['path']: a for a in j['adts']}
+    missing = [p for p in tab if p not in present]
+    out = {}
+    for p in sorted(missing):
+        parent, pname = p.rsplit('::', 1) if '::' in p else ('', p)
+        want = tab[p]
+        cands = []
+        for q, a in present.items():
+            if q in tab or a.get('vis') == 'pub' or (q.rsplit('::', 1)[0] if '::' in q else '') != parent or a['kind'] != want['kind']:
+                continue
+            qname = q.rsplit('::', 1)[-1]
+            shape = [[v['name'] if a['kind'] == 'enum' else '', [f['ty'].replace(q, p) for f in v['fields']]] for v in a['variants']]
+            if shape == want['variants']:
+                cands.append(q)
+        rivals = [m for m in missing if m != p and (m.rsplit('::', 1)[0] if '::' in m else '') == parent and tab[m] == want]
+        if len(cands) == 1 and not rivals:
+            out[cands[0]] = p
+    return out
+
+
+def _load_with_type_aliases(path):
+    with open(path) as f:
+        text = f.read()
+    j = json.loads(text)
+    ta = type_aliases(j)
+    if ta:
+        import re as _re
+        for q, p in sorted(ta.items(), key=lambda kv: -len(kv[0])):
+            text = _re.sub(_re.escape(q) + r'(?![A-Za-z0-9_])', p.replace('\\', '\\\\'), text)
+        j = json.loads(text)
+    return j, ta
+
+
 class Facts:
     def __init__(self, path):
-        with open(path) as f:
-            self.j = json.load(f)
+        self.j, self.type_aliases = _load_with_type_aliases(path)
         self.field_aliases = apply_field_aliases(self.j)
         self.fn_aliases = apply_fn_aliases(self.j)
         self.path = path
